@@ -1,8 +1,8 @@
 (* C15 — pickle, copy and JSON round-trip every value, preserving singleton identity.
-   Statements only (proofs: Proofs/ReenterFacts.v). *)
+   Statements only (proofs: Proofs/ReenterFacts.v, Proofs/CodecFacts.v). *)
 From stdpp Require Import gmap.
 From Coq Require Import ZArith.
-From Measured Require Import Model.FMap Model.Units Model.Intern Proofs.UnitsFacts Proofs.InternFacts Proofs.History Proofs.ReenterFacts.
+From Measured Require Import Model.FMap Model.Units Model.Intern Proofs.UnitsFacts Proofs.InternFacts Proofs.History Proofs.ReenterFacts Model.Codec Proofs.CodecFacts.
 
 (* any table interned by key (dimensions by exponent tuple, prefixes by (base, exponent)): handing the
    stored key back returns the same entry and changes nothing *)
@@ -41,3 +41,57 @@ Example C15_nonvacuous :
   let m := MkU pid {[ 1%positive := 1%Z ]} {[ 2%positive := 1%Z ]} in
   intern [uone; m] (MkU pid {[ 1%positive := 1%Z ]} fone) = ([uone; m], 1%nat).
 Proof. vm_compute. reflexivity. Qed.
+
+(* ---- the JSON documents (Model/Codec.v: Dimension/Prefix/Unit.__json__ and __from_json__) ----
+   Every stored unit, written as a document and read back against the same registry, is the very same entry
+   (same handle) and the registry is unchanged, whenever: keys are unique, every name the encoder writes is
+   bound in Unit._by_name to the unit it was written for, the base units occurring as factors (and One) are
+   stored, and stored units have canonical prefixes, no zero exponents and dimensions of the registry's width. *)
+Theorem C15_json_unit_roundtrip : forall r, names_faithful r -> factors_stored r -> one_stored r ->
+  NoDupK (c_tbl r) -> stored_ok r ->
+  forall h x, nth_error (c_tbl r) h = Some x -> dec_unit r (enc_unit r x) = DOk (c_tbl r, h).
+Proof. exact json_unit_roundtrip. Qed.
+Print Assumptions C15_json_unit_roundtrip.
+
+(* the same with the hypotheses as the boolean checks that are evaluated on the exported registry at every run *)
+Theorem C15_json_unit_roundtrip_checked : forall r, registry_okb r = true ->
+  forall h x, nth_error (c_tbl r) h = Some x -> dec_unit r (enc_unit r x) = DOk (c_tbl r, h).
+Proof. exact json_unit_roundtrip_checked. Qed.
+Print Assumptions C15_json_unit_roundtrip_checked.
+
+Theorem C15_json_dimension_roundtrip : forall nd d, dim_fits nd d -> dec_dim nd (enc_dim nd d) = DOk d.
+Proof. exact dim_roundtrip. Qed.
+Print Assumptions C15_json_dimension_roundtrip.
+
+Theorem C15_json_prefix_roundtrip : forall p, pcanon p -> dec_prefix (enc_prefix p) = DOk p.
+Proof. exact prefix_roundtrip. Qed.
+Print Assumptions C15_json_prefix_roundtrip.
+
+(* before 1df1998 the encoder wrote every prefix of value 1 as null; with that encoder a unit under a base-1
+   prefix decodes to another entry: the hypothesis the proof asked for, and the implementation failed there *)
+Definition enc_unit_old (r : creg) (x : unit3) : json :=
+  match enc_unit r x with
+  | JObj fs => JObj (map (fun kv : jkey * json =>
+                 match kv with
+                 | (KPrefix, _) => if Z.eqb (pbase (upre x)) 1 then (KPrefix, JNull) else kv
+                 | _ => kv
+                 end) fs)
+  | j => j
+  end.
+Theorem C15_refuted_value_one_prefix :
+  let meter := MkU pid {[ 1%positive := 1%Z ]} {[ 2%positive := 1%Z ]} in
+  let odd := MkU (MkP 1 3) {[ 1%positive := 1%Z ]} {[ 2%positive := 1%Z ]} in
+  let r := MkCR [uone; meter; odd] [(1%positive, 0%nat); (2%positive, 1%nat)] [(1%positive, 2%positive)] 1%positive 10 [] in
+  registry_okb r = true /\ dec_unit r (enc_unit_old r odd) = DOk (c_tbl r, 1%nat) /\ dec_unit r (enc_unit r odd) = DOk (c_tbl r, 2%nat).
+Proof. vm_compute. repeat split; reflexivity. Qed.
+
+(* non-vacuity: a registry with a named base unit, a prefixed compound and a prefixed One satisfies the checks *)
+Example C15_json_nonvacuous :
+  let meter := MkU pid {[ 1%positive := 1%Z ]} {[ 2%positive := 1%Z ]} in
+  let second := MkU pid {[ 2%positive := 1%Z ]} {[ 3%positive := 1%Z ]} in
+  let kmps := MkU (MkP 10 3) {[ 1%positive := 1%Z; 2%positive := (-1)%Z ]} {[ 2%positive := 1%Z; 3%positive := (-1)%Z ]} in
+  let kone := MkU (MkP 10 3) fone fone in
+  let r := MkCR [uone; meter; second; kmps; kone] [(1%positive, 0%nat); (2%positive, 1%nat); (3%positive, 2%nat)]
+                [(1%positive, 2%positive); (2%positive, 3%positive)] 1%positive 10 [] in
+  registry_okb r = true /\ dec_unit r (enc_unit r kmps) = DOk (c_tbl r, 3%nat) /\ dec_unit r (enc_unit r kone) = DOk (c_tbl r, 4%nat).
+Proof. vm_compute. repeat split; reflexivity. Qed.
